@@ -210,6 +210,9 @@ def covered(P, allowed):
     value_refs, foreign_calls = _scan(P)
     callers = {}
     foreign = set()
+    foreign_unique = set()
+    from .cfg import _unique_methods
+    unique = set(_unique_methods(P))
     for m, c, f in functions(P):
         for n in ast.walk(f):
             if isinstance(n, ast.Call) and isinstance(n.func, ast.Attribute):
@@ -218,6 +221,11 @@ def covered(P, allowed):
                 is_super = isinstance(v, ast.Call) and isinstance(v.func, ast.Name) and v.func.id == 'super'
                 if is_self or is_super:
                     callers.setdefault(n.func.attr, set()).add(f.name)
+                elif n.func.attr in unique:
+                    # a call on another object of a method that only one class of the package defines (a state transition moved onto the
+                    # object it is about: event._pause(now)) can only reach that method: the caller is a caller of it
+                    callers.setdefault(n.func.attr, set()).add(f.name)
+                    foreign_unique.add(n.func.attr)
                 else:
                     foreign.add(n.func.attr)
     out = set(allowed)
@@ -225,7 +233,9 @@ def covered(P, allowed):
     while changed:
         changed = False
         for h, cs in callers.items():
-            if h in out or not h.startswith('_') or h.startswith('__') or h in value_refs or h in foreign:
+            if h in out or h.startswith('__') or h in value_refs or h in foreign:
+                continue
+            if not h.startswith('_') and h not in foreign_unique:
                 continue
             if cs and all(c_ in out or c_ == h for c_ in cs) and any(c_ != h for c_ in cs):
                 # a foreign call of the same method name elsewhere makes it an entry point -- unless the receiver is a class of the package (static call)
@@ -250,15 +260,32 @@ def readonly_param(P, cls, callee_text, index):
     params = [a.arg for a in fn.args.args]
     if parts[1] not in hit[0].static and params and params[0] == 'self':
         params = params[1:]
-    if index >= len(params):
-        return False
-    pname = params[index]
     par = {}
     for n in ast.walk(fn):
         for ch in ast.iter_child_nodes(n):
             par[ch] = n
+    if index >= len(params):
+        # `*lists`: the argument is an element of the tuple; it is only read if the tuple is only iterated and every loop variable that
+        # receives its elements is itself only read
+        if fn.args.vararg is None:
+            return False
+        names = {fn.args.vararg.arg}
+        for n in ast.walk(fn):
+            if isinstance(n, ast.Name) and n.id == fn.args.vararg.arg:
+                p = par.get(n)
+                if not (isinstance(n.ctx, ast.Load) and isinstance(p, (ast.comprehension, ast.For)) and p.iter is n and isinstance(p.target, ast.Name)):
+                    return False
+                names.add(p.target.id)
+        names.discard(fn.args.vararg.arg)
+        if not names:
+            return False
+        pnames = names
+    else:
+        pnames = {params[index]}
     for n in ast.walk(fn):
-        if isinstance(n, ast.Name) and n.id == pname:
+        if isinstance(n, ast.Name) and n.id in pnames:
+            if isinstance(par.get(n), (ast.comprehension, ast.For)) and par.get(n).target is n:
+                continue
             if not isinstance(n.ctx, ast.Load):
                 return False
             p = par.get(n)
